@@ -207,9 +207,17 @@ def replay_parallel(binary, common_args, npaths, outdir, procs=None, crash_tag=N
             pass
         return (-1, -1)
 
+    def cpu_ticks(pid):
+        try:
+            fields = open('/proc/%d/stat' % pid).read().rsplit(')', 1)[1].split()
+            return int(fields[11]) + int(fields[12])      # utime + stime
+        except (OSError, IndexError, ValueError):
+            return 0
+
     for j in jobs:
         start(j)
     last = {}
+    cpu_seen = {}
     while running:
         time.sleep(0.05)
         for entry in list(running):
@@ -222,13 +230,23 @@ def replay_parallel(binary, common_args, npaths, outdir, procs=None, crash_tag=N
                 now = time.time()
                 if prev is None or prev[0] != cur:
                     last[id(p)] = (cur, now)
+                    cpu_seen.pop(id(p), None)
                     continue
                 # Until the first progress record appears the process is loading its
                 # input: allow a generous start-up time.
                 limit = stall_s if cur[0] != -1 else 180
                 if now - prev[1] < limit:
                     continue
-                # No progress for stall_s seconds: the code under test hangs.
+                # No progress record for stall_s seconds.  A process that is merely starved of
+                # CPU (a loaded machine) still accumulates CPU time, one that hangs on a lock
+                # does not: give the former up to ten times as long (a busy loop ends there too).
+                ticks = cpu_ticks(p.pid)
+                seen = cpu_seen.get(id(p))
+                cpu_seen[id(p)] = ticks
+                if seen is not None and ticks > seen and now - prev[1] < 10 * limit:
+                    continue
+                if seen is None and now - prev[1] < 2 * limit:
+                    continue
                 p.kill()
                 hung = True
             running.remove(entry)
